@@ -143,7 +143,8 @@ def smoothers(ctx):
                 ('jacobi', {'weighting': 'block'}), ('jacobi', {'weighting': 'block', 'degree': 2}), ('jacobi', {'weighting': 'diagonal', 'degree': 3}),
                 ('jacobi', {'weighting': 'local', 'degree': 2}),
                 ('energy', {'krylov': 'cg', 'maxiter': 2}), ('energy', {'krylov': 'cgnr', 'maxiter': 2}),
-                ('energy', {'krylov': 'gmres', 'maxiter': 3, 'degree': 2}), ('energy', {'krylov': 'cg', 'weighting': 'diagonal'}), None]
+                ('energy', {'krylov': 'gmres', 'maxiter': 3, 'degree': 2}), ('energy', {'krylov': 'cg', 'weighting': 'diagonal'}),
+                ('energy', {'krylov': 'cg', 'maxiter': 2, 'degree': 0}), ('energy', {'krylov': 'gmres', 'maxiter': 2, 'degree': 0}), None]
     for pname, A, B in probs:
         for sm in variants:
             for ctor, aggr in (('sa', 'standard'), ('rootnode', 'standard'), ('rootnode', 'naive'),
@@ -189,6 +190,26 @@ def smoothers(ctx):
                         pat = np.kron(node_pat, np.ones((bf, bc))) != 0
                         if sm[0] == 'energy' and np.any((P != 0) & ~pat & (np.abs(T) == 0)):
                             ctx.fail('smoothing/energy/outside-pattern', 'entries outside the allowed sparsity pattern', cs)
+                    if ctor == 'rootnode' and sm is not None and sm[0] == 'energy':
+                        # root-node energy smoothing keeps P B_c = B on every row whose allowed pattern supports the
+                        # constraints: the coarse candidates restricted to the row's pattern have full column rank
+                        deg_ = sm[1].get('degree', 1)
+                        bf_ = L.A.blocksize[0] if sp.issparse(L.A) and L.A.format == 'bsr' else 1
+                        bc_ = P.shape[1] // L.AggOp.shape[1]
+                        nf_ = P.shape[0] // bf_
+                        Apat = np.abs(L.A.toarray()).reshape(nf_, bf_, nf_, bf_).sum(axis=(1, 3)) != 0
+                        npat = (np.linalg.matrix_power(Apat.astype(float) + np.eye(nf_), deg_) @ np.abs(L.AggOp.toarray())) != 0
+                        rpat = np.kron(npat, np.ones((bf_, bc_))) != 0
+                        PB = P @ Bc
+                        K_ = Bc.shape[1]
+                        worst = 0.0
+                        for r_ in range(P.shape[0]):
+                            cols_ = np.flatnonzero(rpat[r_])
+                            if len(cols_) and np.linalg.matrix_rank(Bc[cols_], tol=1e-8 * (1 + np.abs(Bc).max())) == K_:
+                                worst = max(worst, _nn(np.abs(PB[r_] - Bf[r_]).max()))
+                        ctx.count('rootnode:supported-rows-checked')
+                        if worst > 1e-6 * scale:
+                            ctx.fail('rootnode/does-not-reproduce-B', 'max |P B_c - B| on rows whose pattern supports the constraints = %.3g' % worst, cs)
                     if ctor == 'rootnode':
                         Cpts = L.Cpts
                         rows = np.asarray(Cpts)          # degree-of-freedom indices of the root nodes
